@@ -438,4 +438,6 @@ def instances(tier):       # noqa: F811
     from .common import lemma_instance
     return _inst_before_lemmas(tier) + [lemma_instance('C12', 'rayleigh', 'lemma:rayleigh-maximality-from-the-eigh-contract'),
                                          lemma_instance('C12', 'beam', 'lemma:rayleigh-quotient-invariant-under-rescaling-for-every-D',
-                                                        ['quad_smul', 'rayleigh_scale_invariant'])]
+                                                        ['quad_smul', 'rayleigh_scale_invariant']),
+                                         lemma_instance('C12', 'cacgmm', 'lemma:rank-one-estimate-hermitian-psd-trace-preserving-for-every-D',
+                                                        ['rank_one_posSemidef', 'rank_one_isHermitian', 'rank_one_trace'])]
